@@ -181,6 +181,16 @@ def run(chk, drv):
         same = (type(r0) is type(r1)) if isinstance(r0, Exception) or isinstance(r1, Exception) else (r0 == r1 and whole.read() == s1.read())
         if not same:
             chk.fail("load_varint-first-byte-differs", b.hex(), "reading all from the stream: %r; with first=%r taken by the caller: %r" % (r0, b[:1], r1))
+    # ---------------- load_varint on BUFFERED readers (what open(path, "rb") / a socket file give: peek() exists, a read
+    # may be split over refills): the varint starts `off` bytes into a reader with a tiny buffer, so that it straddles a
+    # refill boundary somewhere; result, raw bytes and the rest of the stream must be those of a plain BytesIO
+    multi = [b for b in bss if len(b) >= 2]
+    for b in (multi if len(multi) <= 4000 else chk.rng.sample(multi, 4000)):
+        bs, off = chk.rng.choice([1, 2, 3, 5, 8, 16]), chk.rng.randint(0, 17)
+        f = buffered_differs(b, bs, off)
+        chk.count("load_varint_buffered_reader")
+        if f:
+            chk.fail("load_varint-buffered-differs", {"bytes": b.hex(), "buffer_size": bs, "offset": off}, f)
     # ---------------- decode_varint(buffer, pos) on the same arbitrary byte strings, at an offset
     sample = bss if len(bss) < 120000 else bss[:66000] + chk.rng.sample(bss[66000:], 50000)
     pre = b"\x7f\x80"
@@ -262,6 +272,21 @@ def scalar_messages(chk, drv):
             chk.disagree("scalar dump (optional field)", lines[2 * idx + 1], replies[2 * idx + 1], bo.hex())
 
 
+def buffered_differs(b, bs, off):
+    """None, or how load_varint on io.BufferedReader(buffer_size=bs), `off` bytes in, differs from a plain BytesIO"""
+    tail = b"\x2a\x2b"
+    plain = io.BytesIO(b + tail)
+    r0 = impl(betterproto.load_varint, plain)
+    buf = io.BufferedReader(io.BytesIO(b"\x01" * off + b + tail), buffer_size=bs)
+    buf.read(off)
+    r1 = impl(betterproto.load_varint, buf)
+    if isinstance(r0, Exception) or isinstance(r1, Exception):
+        return None if type(r0) is type(r1) else "BytesIO: %r; BufferedReader: %r" % (r0, r1)
+    if r0 != r1 or plain.read() != buf.read():
+        return "BytesIO: %r; BufferedReader: %r" % (r0, r1)
+    return None
+
+
 def classify(failure, known):
     return None
 
@@ -285,6 +310,8 @@ def replay(chk, rp):
             return True
         return not (size == len(enc) and (inp >= 1 << 64 or (py_canonical(enc, inp)
                     and impl(betterproto.decode_varint, enc, 0) == (inp % (1 << 64), len(enc)))))
+    if kind == "load_varint-buffered-differs" and isinstance(inp, dict):
+        return bool(buffered_differs(bytes.fromhex(inp["bytes"]), inp["buffer_size"], inp["offset"]))
     if kind == "load_varint-first-byte-differs" and isinstance(inp, str) and inp:
         b = bytes.fromhex(inp)
         whole, s1 = io.BytesIO(b + b"\x2a\x2b"), io.BytesIO(b[1:] + b"\x2a\x2b")
